@@ -212,6 +212,13 @@ func supervise(args []string) int {
 	r.Rule("the check process died; no coverage was recorded")
 	r.Eval(0)
 	crashed := strings.Contains(tail, "panic:") || strings.Contains(tail, "fatal error:") || strings.Contains(tail, "unexpected signal")
+	if b, err := os.ReadFile(progress + ".violations"); err == nil {
+		// the check reported violations (VIOLATION lines with replay files are on stdout) before it stopped short
+		var n int
+		fmt.Sscan(string(b), &n)
+		r.ForceViolations(n)
+		r.Extra("violations_reported_before_the_check_stopped_short", n)
+	}
 	if timedOut {
 		r.Inconclusive(fmt.Sprintf("check exceeded its %s watchdog; last cases: %s", budget, last))
 	} else if crashed {
